@@ -118,6 +118,7 @@ def shape_ok(value):
 
 
 class ValidateInput(Contract):
+    locals_order = ['self', 'key', 'value', 'line']
     target = MOD + ":Deb822.validate_input"
     modular = True
     requires = ()
